@@ -94,6 +94,8 @@ class FuncInfo:
     module: "Module"
     cls: "ClassInfo | None"
     decorators: list[Decorator] = field(default_factory=list)
+    parent: "FuncInfo | None" = None  # enclosing function for nested defs
+    nested: dict = field(default_factory=dict)  # name -> FuncInfo of nested defs
 
     @property
     def relpath(self) -> str:
@@ -260,6 +262,7 @@ class SourceIndex:
                     outer.methods[st.name] = fi
                 else:
                     m.functions[st.name] = fi
+                self._collect_nested(m, fi)
             elif isinstance(st, ast.ClassDef):
                 ci = ClassInfo(
                     qualname=f"{prefix}.{st.name}", name=st.name, node=st, module=m, outer=outer
@@ -292,6 +295,22 @@ class SourceIndex:
                 for sub in ast.iter_child_nodes(st):
                     if isinstance(sub, (ast.FunctionDef, ast.ClassDef)):
                         self._collect_body(m, [sub], None)
+
+    def _collect_nested(self, m: Module, outer_fn: FuncInfo) -> None:
+        "functions defined inside functions (decorator wrappers, local helpers)"
+        stack = list(outer_fn.node.body)
+        while stack:
+            st = stack.pop()
+            if isinstance(st, (ast.FunctionDef, ast.AsyncFunctionDef)):
+                fi = FuncInfo(qualname=f"{outer_fn.qualname}.{st.name}", name=st.name, node=st, module=m,
+                              cls=outer_fn.cls, parent=outer_fn)
+                self.functions[fi.qualname] = fi
+                outer_fn.nested[st.name] = fi
+                self._collect_nested(m, fi)
+            elif isinstance(st, ast.ClassDef):
+                continue
+            else:
+                stack.extend(ch for ch in ast.iter_child_nodes(st) if isinstance(ch, ast.stmt))
 
     def _resolve_class(self, c: ClassInfo) -> None:
         c.bases = []
